@@ -19,7 +19,7 @@ type Mutant struct {
 	File     string   `json:"file"`
 	Old      string   `json:"old"`
 	New      string   `json:"new"`
-	Expect   []string `json:"expect"`  // substrings, one of which must occur in a reported obligation name
+	Expect   []string `json:"expect"` // substrings, one of which must occur in a reported obligation name
 	Note     string   `json:"note"`
 	Benign   bool     `json:"benign"` // harmless edit: the check must stay silent
 }
